@@ -73,3 +73,7 @@ def run(repo, run, tier):
     # cached from elsewhere): R(z) is the stability function of exactly that system
     from .c02 import stage_args
     stage_args(repo, run, rule_id="C11.5")
+    # 'an accepted step never increases |y|' is a statement about SOLVED stage equations: the tolerance they are accepted to is relative to the state,
+    # not to the unknowns of the Newton system (whose explicit-sweep guess grows like |z|^s on stiff problems and makes any residual acceptable)
+    from .c02 import stage_tolerance
+    stage_tolerance(repo, run, rule_id="C11.6")
